@@ -90,6 +90,14 @@ def fragmentApplies (S : Schema) (parent cond : TypeDef) : Bool :=
   (S.possibleOf parent.name).contains cond.name || (S.possibleOf cond.name).contains parent.name ||
   parent.members.contains cond.name || cond.members.contains parent.name
 
+/-- leaf/composite shape of a field whose named type is `n`: a composite type (declared in `S`)
+    needs a non-empty selection set (checked by `k`), a leaf type — a declared scalar or enum, or a
+    builtin scalar — must not have one; an unknown type name is an error -/
+def shapeOK (S : Schema) (n : String) (subEmpty : Bool) (k : TypeDef → Bool) : Bool :=
+  match S.type? n with
+  | some td => if isComposite td.kind then !subEmpty && k td else subEmpty
+  | none => isBuiltinScalar n && subEmpty
+
 mutual
   /-- one selection, selected on a value of type `parent` (a type definition OF `S`) -/
   def validSel (S : Schema) (h : Header) (parent : TypeDef) : Sel → Bool
@@ -100,11 +108,7 @@ mutual
         | none => false            -- the type does not declare the field
         | some fd =>
           argsOK h fd.args args && dirs.all (dirOK S h) &&
-          (match S.type? fd.type.name with
-           | some td =>
-             if isComposite td.kind then !sub.isEmpty && validSels S h td sub   -- composite: needs a selection set
-             else sub.isEmpty                                                      -- leaf: must not have one
-           | none => isBuiltinScalar fd.type.name && sub.isEmpty)
+          shapeOK S fd.type.name sub.isEmpty (fun td => validSels S h td sub)
     | .inline cond _ _ dirs sub =>
       dirs.all (dirOK S h) && !sub.isEmpty &&
       (if cond == "" then validSels S h parent sub
@@ -170,11 +174,38 @@ def occOn (S : Schema) (T n : String) (rq : Request) : Nat :=
   | none => 0
   | some rn => occSels S T n rn rq.sels
 
+/-! ### reading a service schema -/
+
+/-- the kind of the type named `n` in `S` -/
+def kindOf (S : Schema) (n : String) : Option Kind := (S.type? n).map (·.kind)
+
+/-- the definition of the field `T.n` in `S` -/
+def fieldOf (S : Schema) (T n : String) : Option FieldDef := (S.type? T).bind (·.field? n)
+
 /-- the type `T` of `S` declares the field `n` -/
-def declares (S : Schema) (T n : String) : Bool :=
-  match S.type? T with
-  | none => false
-  | some td => (td.field? n).isSome
+def declares (S : Schema) (T n : String) : Bool := (fieldOf S T n).isSome
+
+/-- a leaf type in `S`: a declared scalar / enum (anything not composite), or a builtin scalar -/
+def leafIn (S : Schema) (n : String) : Bool :=
+  match S.type? n with
+  | some td => !isComposite td.kind
+  | none => isBuiltinScalar n
+
+/-- `S` declares `T.n`, a leaf field that may be selected without arguments -/
+def LeafField (S : Schema) (T n : String) : Prop :=
+  ∃ fd, fieldOf S T n = some fd ∧ requiredGiven fd.args [] = true ∧ leafIn S fd.type.name = true
+
+/-- the schema of the service at `url` (an empty schema if there is none: nothing is valid for it) -/
+def schemaAt (svcs : List Svc) (url : String) : Schema :=
+  match svcs.find? (·.url == url) with
+  | some s => s.schema
+  | none => { types := [] }
+
+/-- every (service URL, request) pair among `calls` whose request selects the field `T.n` (read
+    against the schema of the service called), with multiplicity -/
+def selecting (svcs : List Svc) (T n : String) (calls : List Call) : List (String × Request) :=
+  calls.flatMap (fun cl =>
+    (cl.batch.filter (fun rq => occOn (schemaAt svcs cl.url) T n rq != 0)).map (fun rq => (cl.url, rq)))
 
 /-- a follow-up lookup has exactly the form `query($id: ID!) { node(id: $id) { ... on T { sub } } }` -/
 def IsNodeLookup (T : String) (sub : List Sel) (rq : Request) : Prop :=
